@@ -131,6 +131,8 @@ func NewDriver(
 	}
 
 	d := &Driver{
+		// the logging options are applied to the generic driver: keep what they built
+		Logger:        gd.Logger,
 		TransportType: gd.TransportType,
 		Transport:     gd.Transport,
 		Channel:       gd.Channel,
